@@ -4,7 +4,7 @@
    The vocabulary of the cells is interpreted HERE; a cell this file does not understand makes the check fail,
    so a reworded table has to be looked at. *)
 From Coq Require Import String NArith List Bool.
-From GF Require Import Base.Res Base.Bytes Model.Msg Model.NFv5 Model.SFlow Model.Packet Model.ProdNF Model.ProdSF
+From GF Require Import Base.Res Base.Bytes Model.Msg Model.NFv5 Model.NF Model.SFlow Model.Packet Model.ProdNF Model.ProdSF
      Model.Cfg Model.Render Spec.Frame Spec.DocTable Spec.DocCheck Spec.RenderTables.
 Import ListNotations.
 Local Open Scope string_scope.
@@ -152,3 +152,11 @@ Definition sflow_layout_ok : bool :=
   strings_eqb (struct_shape "IfCounters")
     (map (fun w => if Nat.eqb w 8 then "uint64" else "uint32") if_counters_ws) &&
   strings_eqb (struct_shape "EthernetCounters") (u32n 13).
+
+(* ---- the NetFlow v9 / IPFIX header widths of the model are the Go structs' (the model reads the version word first;
+   the source id / observation domain is the last header word, the word nf_dom picks) ---- *)
+Definition nf_layout_ok : bool :=
+  (if list_eq_dec N.eq_dec (map snd v9_header_layout) (2 :: map N.of_nat NF.v9_hdr_ws) then true else false) &&
+  (if list_eq_dec N.eq_dec (map snd ipfix_header_layout) (2 :: map N.of_nat NF.ipfix_hdr_ws) then true else false) &&
+  (match index_of "SourceId" v9_header_layout 0 with Some i => Nat.eqb i 5 | None => false end) &&
+  (match index_of "ObservationDomainId" ipfix_header_layout 0 with Some i => Nat.eqb i 4 | None => false end).
